@@ -25,75 +25,75 @@ func afSpliceStart(p *packet.Packet) int { return afOPCRStart(p) + afIf(afFlag(p
 func afTPDStart(p *packet.Packet) int    { return afSpliceStart(p) + afIf(afFlag(p, 0x04), 1) }
 
 //@ func Length(pkt *packet.Packet) uint8
-//@   props C03
+//@   props C03 C05
 //@   requires pkt != nil
 //@   ensures result == pkt[4]
 //@   modifies nothing
 
 //@ func IsDiscontinuous(pkt *packet.Packet) bool
-//@   props C03
+//@   props C03 C05
 //@   requires pkt != nil
 //@   ensures result == (pkt[5]/128 == 1)
 //@   modifies nothing
 
 //@ func IsRandomAccess(pkt *packet.Packet) bool
-//@   props C03
+//@   props C03 C05
 //@   requires pkt != nil
 //@   ensures result == ((pkt[5]/64)%2 == 1)
 //@   modifies nothing
 
 //@ func IsESHigherPriority(pkt *packet.Packet) bool
-//@   props C03
+//@   props C03 C05
 //@   requires pkt != nil
 //@   ensures result == ((pkt[5]/32)%2 == 1)
 //@   modifies nothing
 
 //@ func HasPCR(pkt *packet.Packet) bool
-//@   props C03
+//@   props C03 C05
 //@   requires pkt != nil
 //@   ensures result == ((pkt[5]/16)%2 == 1)
 //@   modifies nothing
 
 //@ func HasOPCR(pkt *packet.Packet) bool
-//@   props C03
+//@   props C03 C05
 //@   requires pkt != nil
 //@   ensures result == ((pkt[5]/8)%2 == 1)
 //@   modifies nothing
 
 //@ func HasSplicingPoint(pkt *packet.Packet) bool
-//@   props C03
+//@   props C03 C05
 //@   requires pkt != nil
 //@   ensures result == ((pkt[5]/4)%2 == 1)
 //@   modifies nothing
 
 //@ func HasTransportPrivateData(pkt *packet.Packet) bool
-//@   props C03
+//@   props C03 C05
 //@   requires pkt != nil
 //@   ensures result == ((pkt[5]/2)%2 == 1)
 //@   modifies nothing
 
 //@ func HasAdaptationFieldExtension(pkt *packet.Packet) bool
-//@   props C03
+//@   props C03 C05
 //@   requires pkt != nil
 //@   ensures result == (pkt[5]%2 == 1)
 //@   modifies nothing
 
 //@ func PCR(pkt *packet.Packet) (b []byte, err error)
-//@   props C03
+//@   props C03 C05
 //@   requires pkt != nil
 //@   ensures !afFlag(pkt, 0x10) ==> b == nil && err == gots.ErrNoPCR
 //@   ensures afFlag(pkt, 0x10) ==> err == nil && len(b) == 6 && &b[0] == &pkt[6]
 //@   modifies nothing
 
 //@ func OPCR(pkt *packet.Packet) (b []byte, err error)
-//@   props C03
+//@   props C03 C05
 //@   requires pkt != nil
 //@   ensures !afFlag(pkt, 0x08) ==> b == nil && err == gots.ErrNoOPCR
 //@   ensures afFlag(pkt, 0x08) ==> err == nil && len(b) == 6 && &b[0] == &pkt[afOPCRStart(pkt)]
 //@   modifies nothing
 
 //@ func SpliceCountdown(pkt *packet.Packet) (v uint8, err error)
-//@   props C03
+//@   props C03 C05
 //@   requires pkt != nil
 //@   ensures !afFlag(pkt, 0x04) ==> v == 0 && err == gots.ErrNoSplicePoint
 //@   ensures afFlag(pkt, 0x04) ==> err == nil && v == pkt[afSpliceStart(pkt)]
